@@ -55,6 +55,7 @@ pub fn struct_kinds(traits: u32) -> Vec<&'static str> {
     }
     if traits & T_HTML != 0 {
         v.push("html_nest");
+        v.push("html_attr_value");
     }
     if traits & T_ANCHOR != 0 {
         v.extend_from_slice(&ANCHOR_KINDS);
@@ -183,6 +184,35 @@ pub fn apply(kind: &str, traits: u32, data: &mut Vec<u8>, other: &[u8], t: &mut 
             let len = 250 + t.below(11) as usize;
             let host: String = (0..len).map(|i| alnum[i % alnum.len()]).collect();
             *data = format!("mxc://{host}/{media}").into_bytes();
+            true
+        }
+        "html_attr_value" => {
+            // damage the start of an attribute value (where schemes, classes and colours are parsed)
+            let starts: Vec<usize> = data.windows(2).enumerate().filter(|(_, w)| w[0] == b'=' && (w[1] == b'"' || w[1] == b'\'')).map(|(i, _)| i + 2).take(128).collect();
+            if starts.is_empty() {
+                return false;
+            }
+            let at = (starts[t.index(starts.len())] + t.below(9) as usize).min(data.len());
+            const PIECES: [&str; 12] = ["\u{e9}", "\u{20ac}", "\u{65e5}\u{672c}", "\u{1F600}", ":", "//", "%", "#", " ", "\u{301}", "&amp;", "\u{0}"];
+            let piece = PIECES[t.index(PIECES.len())].as_bytes().to_vec();
+            if t.chance(1, 2) && at < data.len() {
+                // replace instead of insert, on a character boundary
+                let mut end = at + 1;
+                while end < data.len() && (data[end] & 0xC0) == 0x80 {
+                    end += 1;
+                }
+                let mut begin = at;
+                while begin > 0 && (data[begin] & 0xC0) == 0x80 {
+                    begin -= 1;
+                }
+                data.splice(begin..end, piece);
+            } else {
+                let mut begin = at;
+                while begin > 0 && begin < data.len() && (data[begin] & 0xC0) == 0x80 {
+                    begin -= 1;
+                }
+                data.splice(begin..begin, piece);
+            }
             true
         }
         "html_nest" => {
